@@ -180,6 +180,12 @@ def l1(ctx, module, cfg_text, workers=None, timeout=1800, heap="12g", name=None,
     counterexample here is a defect of the specification, i.e. of the machinery."""
     r = tlc(ctx, module, cfg_text, workers=workers or NCPU, timeout=timeout, heap=heap, name=name or ("L1-" + module),
             extra=extra)
+    if "TLC threw an unexpected exception" in r["out"] and (workers or NCPU) > 1:
+        # seen once in many hundred runs ("Attempted to check equality of integer 3 with non-integer ...", not
+        # reproducible): TLC's worker threads are not fully safe on shared lazily normalised values. A specification
+        # error shows again with one worker and is then reported.
+        log("  (TLC raised an unexpected exception with %d workers; running %s again with one worker)" % (workers or NCPU, name or module))
+        r = tlc(ctx, module, cfg_text, workers=1, timeout=timeout * 4, heap=heap, name=name or ("L1-" + module), extra=extra)
     tlc_require_ok(r)
     ctx.l1.append({k: r[k] for k in ("name", "module", "generated", "distinct", "wall_s")})
     log("  L1 %-28s %9d states generated %9d distinct  %.1fs" % (r["name"], r["generated"], r["distinct"], r["wall_s"]))
